@@ -320,6 +320,7 @@ fn miri_stage(prop: &str, tier: &str, seed: u64) -> (serde_json::Value, usize) {
     let n: u64 = std::env::var("DST_MIRI_SEEDS").ok().and_then(|s| s.parse().ok()).unwrap_or(match (tier, scenario) {
         ("thorough", "metrics_many_threads") => 96, // 27 threads: ~15 s per seed
         ("thorough", _) => 256,
+        (_, "metrics_many_threads") => 16,
         _ => 32,
     });
     let from = (seed % 1000) * 1000;
